@@ -334,6 +334,9 @@ def check_aliases(ctx, rels):
             for node, t in class_level_stores(f.node, (f.cls.name,) if f.cls is not None else ()):
                 ctx.bad("instance-value-on-class:%s" % q.split(".", 1)[-1], "%s:%d" % (rel, node.lineno),
                         "%s stores a value computed from the instance on the class (`%s = ...`): all instances share the slot, so every other instance (another network, another key) finds the value of the one that filled it first" % (q, t))
+            for node, t in zero_replaced_by_default(f.node):
+                ctx.bad("zero-is-a-value:%s" % q.split(".", 1)[-1], "%s:%d" % (rel, node.lineno),
+                        "%s computes `%s` from an integer parameter: an explicitly given 0 is falsy and is replaced by the default, so the caller's value is not the one used" % (q, t))
             for node, t in native_struct_formats(f.node):
                 ctx.bad("native-struct-format:%s" % q.split(".", 1)[-1], "%s:%d" % (rel, node.lineno),
                         "%s packs / unpacks with the struct format `%s`, which has no byte-order prefix: fields wider than a byte take the machine's byte order and are ALIGNED (padding bytes between a 1-byte and an 8-byte field), unlike the wire format" % (q, t))
@@ -439,4 +442,66 @@ def class_level_stores(fn, class_names=()):
             if bt in ("%s.__class__" % me, "type(%s)" % me) or bt in class_names:
                 if any(isinstance(x, ast.Name) and x.id == me for x in ast.walk(val)):
                     out.append((n, ast.unparse(t)[:60]))
+    return out
+
+
+def resets_moved_before_loop(code_fn, ref_fn):
+    """names N such that the reviewed function resets N to a constant AFTER a loop that assigns N and then accumulates into it
+    (N |= .., N += ..), while the function now has that reset only BEFORE the loop: the accumulation starts from what the loop's
+    last iteration left in N"""
+    if not isinstance(code_fn, (ast.FunctionDef, ast.AsyncFunctionDef)) or not isinstance(ref_fn, (ast.FunctionDef, ast.AsyncFunctionDef)):
+        return []
+
+    def shape(fn):
+        """name -> list of (position, kind) over the top-level statements: 'reset' (N = const), 'loop' (a loop assigning N), 'acc' (N op= ..)"""
+        out = {}
+        for pos, st in enumerate(fn.body):
+            if isinstance(st, ast.Assign) and len(st.targets) == 1 and isinstance(st.targets[0], ast.Name) and isinstance(st.value, ast.Constant):
+                out.setdefault(st.targets[0].id, []).append((pos, "reset"))
+            elif isinstance(st, (ast.For, ast.While)):
+                for n in ast.walk(st):
+                    if isinstance(n, ast.Name) and isinstance(n.ctx, ast.Store):
+                        out.setdefault(n.id, []).append((pos, "loop"))
+            else:
+                for n in ast.walk(st):
+                    if isinstance(n, ast.AugAssign) and isinstance(n.target, ast.Name):
+                        out.setdefault(n.target.id, []).append((pos, "acc"))
+        return out
+    cs, rs = shape(code_fn), shape(ref_fn)
+    found = []
+    for name, ev in rs.items():
+        loops = [p for p, k in ev if k == "loop"]
+        if not loops:
+            continue
+        last_loop = max(loops)
+        if not any(k == "reset" and p > last_loop for p, k in ev) or not any(k == "acc" and p > last_loop for p, k in ev):
+            continue
+        cev = cs.get(name, [])
+        cloops = [p for p, k in cev if k == "loop"]
+        if not cloops:
+            continue
+        cl = max(cloops)
+        if any(k == "acc" and p > cl for p, k in cev) and not any(k == "reset" and p > cl for p, k in cev) and any(k == "reset" and p < min(cloops) for p, k in cev):
+            found.append(name)
+    return found
+
+
+def zero_replaced_by_default(fn):
+    """[(node, text)]: `P or <default>` (or `<default> if not P else P`) on a parameter annotated as an integer: an explicit 0 -- a
+    valid amount, fee, tweak, index -- is falsy and is silently replaced by the default"""
+    out = []
+    if not isinstance(fn, (ast.FunctionDef, ast.AsyncFunctionDef)):
+        return out
+    ann = {a.arg: ast.unparse(a.annotation) for a in fn.args.args + fn.args.kwonlyargs + fn.args.posonlyargs if a.annotation is not None}
+    ints = {k for k, v in ann.items() if "int" in v.replace("bytes", "") and "bool" not in v}
+    stored = {n.id for n in ast.walk(fn) if isinstance(n, ast.Name) and isinstance(n.ctx, ast.Store)}
+    for n in ast.walk(fn):
+        if isinstance(n, ast.BoolOp) and isinstance(n.op, ast.Or) and isinstance(n.values[0], ast.Name) and n.values[0].id in ints and n.values[0].id not in stored:
+            rest = n.values[1:]
+            if all(isinstance(r, ast.Constant) and r.value in (0, None, False) for r in rest):
+                continue
+            out.append((n, ast.unparse(n)[:60]))
+        elif isinstance(n, ast.IfExp) and isinstance(n.test, ast.UnaryOp) and isinstance(n.test.op, ast.Not) and isinstance(n.test.operand, ast.Name) and n.test.operand.id in ints \
+                and isinstance(n.orelse, ast.Name) and n.orelse.id == n.test.operand.id and not (isinstance(n.body, ast.Constant) and n.body.value in (0, None)):
+            out.append((n, ast.unparse(n)[:60]))
     return out
